@@ -21,7 +21,7 @@
    [probe_state c s] = HALF_OPEN, or OPEN with now - last_failure >= timeout.
    Histories in which requests overlap: second half of the file. *)
 From Coq Require Import ZArith List Bool.
-From Verif Require Import C08.Model C08.Proofs gen.Gen_C08 C08.GenOk.
+From Verif Require Import C08.Model C08.Proofs C08.Live gen.Gen_C08 C08.GenOk.
 Import ListNotations.
 Open Scope Z_scope.
 
@@ -261,7 +261,8 @@ Print Assumptions c08_ctrace_is_crun.
    paired with what the observer does if it is called during that operation ([CbReturns | CbRaises]);
    [krun c k (s, fl) ops] gives the state, the requests in flight and the replies [Returned res | Raised res]
    ([res] = the result the observer was handed) in the order in which they were given.  [run_case] - what the
-   correspondence check evaluates - is [ktrace]. *)
+   correspondence check evaluates - is [ltrace], the live histories of the last part of the file, of which these
+   are the histories without reconfiguration (c08_live_static_is_krun). *)
 
 (* The callbacks never move the breaker (or anything else): whatever observers are installed and whichever of
    their calls raise, the loop state after the history and the result computed for every request are those of
@@ -358,6 +359,123 @@ Theorem c08_ktrace_is_krun :
      flat_map (fun x => match snd x with Some r => [r] | None => [] end) (ktrace c k cs ops)).
 Proof. exact ktrace_krun. Qed.
 Print Assumptions c08_ktrace_is_krun.
+
+(* ====================================================================== *)
+(* LIVE RECONFIGURATION and prompts that cannot be hashed.  failure_threshold and recovery_timeout are public
+   attributes that the breaker methods read at every call; a live history ([lop], [lstep], [lrun] of Model.v) threads
+   the configuration through its operations: [SetTimeout t] / [SetThreshold n] replace it (any value: zero, a
+   "manual reset only" timeout of 1e12 s, ...), [K o] is an operation of the histories above carried out under the
+   configuration in force, [Odd r] a request whose prompt cannot be hashed (lone surrogate, not a str): run() touches
+   the prompt only after the breaker check, and then raises ([LRaisedInRun]).  Vocabulary (Live.v): [arrives o] =
+   a whole request, the begin of an overlapping one, or a request with an unhashable prompt;
+   [within tmo now lf ops] = [ops] consists of arrivals, clock advances and reassignments of the timeout and the
+   threshold, and every arrival happens less than the timeout IN FORCE AT THAT MOMENT after [lf];
+   [lresults rs] = the LoopResults among the replies; [thr_fixed ops] = no [SetThreshold]. *)
+
+(* histories without reconfiguration and unusual prompts are exactly the histories of the theorems above *)
+Theorem c08_live_static_is_krun :
+  forall k c ops cs,
+    lrun k (c, cs) (map K ops) = ((c, fst (krun c k cs ops)), map lift (snd (krun c k cs ops))).
+Proof. exact lrun_static. Qed.
+Print Assumptions c08_live_static_is_krun.
+
+(* While open it answers EVERY request blocked/CIRCUIT_OPEN until the recovery timeout has elapsed since the last
+   failure: whatever the prompt is (hashable or not: run() RETURNS the refusal, it does not raise), whatever the
+   recovery timeout is or is made meanwhile (lengthened, shortened, far beyond the range of the clock), as long as
+   each request arrives less than the timeout then in force after the last failure.  No agent is invoked, no energy
+   spent, the breaker, the cache and the requests in flight are as before; only the request counter moves. *)
+Theorem c08_live_open_isolates_every_prompt :
+  forall k ops c s fl lf c' s' fl' rs,
+    enabled c = true -> circ (br s) = Open -> last_failure (br s) = Some lf ->
+    within (timeout c) (now s) lf ops ->
+    lrun k (c, (s, fl)) ops = ((c', (s', fl')), rs) ->
+    Forall (fun x => x = (true, LReply (Returned res_circuit_open))) rs /\
+    br s' = br s /\ zcalls s' = zcalls s /\ ycalls s' = ycalls s /\ spent s' = spent s /\
+    cache s' = cache s /\ fl' = fl /\
+    total_requests s' = total_requests s + Z.of_nat (length rs).
+Proof. exact live_open_isolates_proof. Qed.
+Print Assumptions c08_live_open_isolates_every_prompt.
+
+(* one arriving request in that situation, as an equation: the state moves by the request counter only *)
+Theorem c08_live_refusal_step :
+  forall k c s fl o lf,
+    enabled c = true -> circ (br s) = Open -> last_failure (br s) = Some lf -> now s - lf < timeout c ->
+    arrives o = true ->
+    lstep k (c, (s, fl)) o = ((c, (bump_requests s, fl)), Some (true, LReply (Returned res_circuit_open))).
+Proof. exact lstep_refused. Qed.
+Print Assumptions c08_live_refusal_step.
+
+(* once the timeout IN FORCE has elapsed since the last failure a probe is admitted (served by the agents or from
+   the cache, never CIRCUIT_OPEN) - e.g. at once when the operator shortens the timeout of an outage in progress *)
+Theorem c08_live_probe_admitted_at_timeout_in_force :
+  forall k c s fl r b lf ls' a,
+    enabled c = true -> cache_ok (cache s) ->
+    circ (br s) = Open -> last_failure (br s) = Some lf -> timeout c <= now s - lf ->
+    lstep k (c, (s, fl)) (K (Seq (Run r), b)) = (ls', a) ->
+    exists s' p,
+      ls' = (c, (s', fl)) /\ a = Some (true, LReply p) /\
+      r_action (reply_result p) <> ACircuitOpen /\
+      ((r_cached (reply_result p) = true /\ zcalls s' = zcalls s /\ circ (br s') = HalfOpen) \/
+       (r_cached (reply_result p) = false /\ zcalls s' = zcalls s + 1)).
+Proof. exact live_probe_admitted_proof. Qed.
+Print Assumptions c08_live_probe_admitted_at_timeout_in_force.
+
+(* never open before the threshold has been reached in total, while the recovery timeout is reassigned at will and
+   requests with unhashable prompts come in: those are never failures (they have no LoopResult when run() raises) *)
+Theorem c08_live_open_implies_threshold_reached :
+  forall k ops c s fl c' s' fl' rs,
+    interim c = false -> circ (br s) = Closed -> fcount (br s) = 0 -> thr_fixed ops ->
+    lrun k (c, (s, fl)) ops = ((c', (s', fl')), rs) ->
+    (circ (br s') <> Closed ->
+       threshold c <= count_failures (lresults rs) /\ threshold c <= fcount (br s') /\
+       last_failure (br s') <> None) /\
+    (trips (br s) < trips (br s') -> threshold c <= count_failures (lresults rs)).
+Proof. exact live_open_implies_threshold_proof. Qed.
+Print Assumptions c08_live_open_implies_threshold_reached.
+
+(* the threshold reassigned on the live loop: the count grows only by failures, and a CLOSED breaker leaves CLOSED
+   only when the count has reached the threshold in force in that operation ... *)
+Theorem c08_live_trip_needs_threshold_in_force :
+  forall k c s fl o c' s' fl' a,
+    interim c = false -> 0 <= fcount (br s) -> circ (br s) = Closed ->
+    lstep k (c, (s, fl)) o = ((c', (s', fl')), a) ->
+    fcount (br s') <= fcount (br s) + count_failures (lres_list a) /\
+    (circ (br s') <> Closed -> threshold c <= fcount (br s') /\ last_failure (br s') <> None).
+Proof. exact live_trip_needs_threshold_in_force_proof. Qed.
+Print Assumptions c08_live_trip_needs_threshold_in_force.
+
+(* ... and it does open, stamping the failure, when a request fails with the count reaching the threshold in force
+   (whatever the recovery timeout is: nothing is added to the clock reading) *)
+Theorem c08_live_opens_at_threshold_in_force :
+  forall k c s fl r b c' s' fl' w p,
+    legacy c = false -> interim c = false ->
+    circ (br s) = Closed -> threshold c <= fcount (br s) + 1 ->
+    lstep k (c, (s, fl)) (K (Seq (Run r), b)) = ((c', (s', fl')), Some (w, LReply p)) ->
+    failureb (reply_result p) = true ->
+    circ (br s') = Open /\ fcount (br s') = fcount (br s) + 1 /\ trips (br s') = trips (br s) + 1 /\
+    last_failure (br s') = Some (now s').
+Proof. exact live_opens_at_threshold_in_force_proof. Qed.
+Print Assumptions c08_live_opens_at_threshold_in_force.
+
+(* a request whose prompt cannot be hashed and that makes run() raise is not booked: no failure, no success, no
+   trip; at most it was admitted as the probe (OPEN -> HALF_OPEN) *)
+Theorem c08_live_unhashable_prompt_not_booked :
+  forall k c s fl r c' s' fl',
+    lstep k (c, (s, fl)) (Odd r) = ((c', (s', fl')), Some (true, LRaisedInRun)) ->
+    fcount (br s') = fcount (br s) /\ trips (br s') = trips (br s) /\
+    last_failure (br s') = last_failure (br s) /\ scount (br s') = scount (br s) /\
+    (circ (br s') = circ (br s) \/ (circ (br s) = Open /\ circ (br s') = HalfOpen)).
+Proof. exact live_odd_raise_not_booked_proof. Qed.
+Print Assumptions c08_live_unhashable_prompt_not_booked.
+
+(* the history the correspondence check observes ([run_case] maps [ltrace]) is the one these theorems speak about *)
+Theorem c08_ltrace_is_lrun :
+  forall k ops ls,
+    lrun k ls ops =
+    (last (map (fun x => snd (fst x)) (ltrace k ls ops)) ls,
+     flat_map (fun x => match snd x with Some r => [r] | None => [] end) (ltrace k ls ops)).
+Proof. exact ltrace_lrun. Qed.
+Print Assumptions c08_ltrace_is_lrun.
 
 (* ====================================================================== *)
 (* The breaker automaton of the model is the code.  gen/Gen_C08.v is regenerated from operon_ai/topology/loops.py
